@@ -1,7 +1,7 @@
 #![cfg(feature = "io-uring")]
 
 use super::internal_op_tracker::{
-  InternalOpDetails, InternalOpPayload, InternalOpType, PinnedEgressBatch,
+  InternalOpDetails, InternalOpPayload, InternalOpType, PinnedEgressBatch, ORPHANED_OP_FD,
 };
 use crate::io_uring_backend::connection_handler::{
   HandlerIoOps, HandlerSqeBlueprint, UringWorkerInterface,
@@ -902,6 +902,11 @@ pub(crate) fn process_all_cqes(
             // Drop all queued write blueprints and in-flight send buffer allocations
             // for this fd so they are freed immediately rather than leaking.
             worker.work_map.remove(&handler_fd);
+            // A close requested for this descriptor by an earlier completion must not reach
+            // the next connection that is given the same number.
+            worker
+              .fds_needing_close_initiated_pass
+              .retain(|fd| *fd != handler_fd);
             let removed_ops = worker.internal_op_tracker.remove_ops_for_fd(handler_fd);
             for op in removed_ops {
               match op.payload {
@@ -948,6 +953,32 @@ pub(crate) fn process_all_cqes(
               _ => {}
             }
             continue; // Buffer released, nothing more to do for F_NOTIFY.
+          }
+
+          if handler_fd == ORPHANED_OP_FD {
+            // The connection was closed while this send was in the kernel. Its buffers were kept
+            // until now; nothing is retried and nobody is told.
+            match op_details.payload {
+              InternalOpPayload::SendZeroCopy { send_buf_id, .. }
+              | InternalOpPayload::SendZeroCopyLeased { send_buf_id } => {
+                if !is_initial_with_more {
+                  if let Some(pool) = &worker.send_buffer_pool {
+                    pool.release_buffer(send_buf_id);
+                  }
+                } else {
+                  worker.internal_op_tracker.reinsert_for_notification(
+                    cqe_user_data,
+                    InternalOpDetails {
+                      fd: ORPHANED_OP_FD,
+                      op_type: InternalOpType::SendZeroCopyLeased,
+                      payload: InternalOpPayload::SendZeroCopyLeased { send_buf_id },
+                    },
+                  );
+                }
+              }
+              _ => {}
+            }
+            continue;
           }
 
           if cqe_result < 0 {
